@@ -464,6 +464,9 @@ def do_cube_A(spec, sc, st, jobno):
     cb = Cubes(fam, dense, commons, shape, N0, CA.install())
     N = cb.N
     fact_rows, count_rows = designs(sc)
+    if fam == "M" and N > 100:
+        # the 255/256/257-row cubes: a thinned design (every factor level still occurs) keeps the quick tier quick
+        fact_rows, count_rows = fact_rows[::4], count_rows[::3]
     base = jobno * 131
     for i, (fi, wi, pi, di, ri) in enumerate(fact_rows):
         idx = base + i
@@ -533,6 +536,13 @@ def medium_specs():
                 commons.append(c)
                 shape.append(k + 1)
             yield ("M", dense, commons, tuple(shape), None)
+    # a cell holding a long, nearly contiguous run of rows (one gap), and cells holding exactly 255 / 256 / 257 rows
+    for run in ([1] * 16 + [0] + [1] * 17, [1] * 20 + [0] + [1] * 19 + [2, 2], [2] + [1] * 40):
+        for c in (0, 3):
+            yield ("M", [np.array(run, dtype=np.int64)], [c], (4,), None)
+    for n in (255, 256, 257):
+        yield ("M", [np.ones(n, dtype=np.int64)], [0], (2,), None)
+        yield ("M", [np.array([1] * n + [0, 0], dtype=np.int64), np.array([0] * n + [1, 0], dtype=np.int64)], [0, 1], (2, 2), None)
 
 
 def jobs(sc):
